@@ -306,3 +306,103 @@ Section CloseFold.
       + subst d1. destruct (firstclose cds ds) as [cd|]; [rewrite (Hs1 (G cd))|]; ring.
   Qed.
 End CloseFold.
+
+(* ------------------------------------------------------------ Part C: dates *)
+
+Lemma find_none_all {A} (f : A -> bool) l : (forall x, In x l -> f x = false) -> find f l = None.
+Proof.
+  induction l as [|x l IH]; intros H; cbn [find]; [reflexivity|].
+  rewrite (H x (or_introl eq_refl)). apply IH. intros y Hy. apply H. right. exact Hy.
+Qed.
+
+Lemma find_ext_in {A} (f g : A -> bool) l : (forall x, In x l -> f x = g x) -> find f l = find g l.
+Proof.
+  induction l as [|x l IH]; intros H; cbn [find]; [reflexivity|].
+  rewrite (H x (or_introl eq_refl)). rewrite IH; [reflexivity|]. intros y Hy. apply H. right. exact Hy.
+Qed.
+
+Lemma find_sorted_first (f : Z -> bool) l x :
+  StronglySorted Z.lt l -> In x l -> f x = true -> (forall y, In y l -> (y < x)%Z -> f y = false) ->
+  find f l = Some x.
+Proof.
+  induction l as [|y l IH]; intros Hs Hin Hfx Hlow; [destruct Hin|].
+  inversion Hs as [|? ? Hs' Hall]; subst. cbn [find].
+  destruct Hin as [->|Hin]; [rewrite Hfx; reflexivity|].
+  rewrite Forall_forall in Hall.
+  rewrite (Hlow y (or_introl eq_refl) (Hall _ Hin)).
+  apply IH; try assumption. intros z Hz. apply Hlow. right. exact Hz.
+Qed.
+
+Lemma existsb_eqb_false (y : Z) l : ~ In y l -> existsb (Z.eqb y) l = false.
+Proof.
+  intros H. destruct (existsb (Z.eqb y) l) eqn:E; [|reflexivity]. exfalso.
+  apply existsb_exists in E. destruct E as (x & Hx & Hyx). apply Z.eqb_eq in Hyx. subst. contradiction.
+Qed.
+
+(* in a sorted list of days that has a day for every period start above lo, the first closing
+   day is the first period start above lo *)
+Lemma firstclose_nxt : forall starts, StronglySorted Z.lt starts -> forall lo l,
+  StronglySorted Z.lt l -> (forall x, In x l -> (lo < x)%Z) ->
+  (forall s, In s starts -> (lo < s)%Z -> In s l) ->
+  find (fun x => existsb (Z.eqb x) starts) l = find (fun s => (lo <? s)%Z) starts.
+Proof.
+  induction starts as [|s rest IH]; intros Hss lo l Hsl Hlo Hcov.
+  - cbn [find]. apply find_none_all. intros; reflexivity.
+  - inversion Hss as [|? ? Hss' Hall]; subst. rewrite Forall_forall in Hall. cbn [find].
+    destruct (lo <? s)%Z eqn:E.
+    + apply Z.ltb_lt in E. apply find_sorted_first; try assumption.
+      * apply Hcov; [left; reflexivity|exact E].
+      * cbn [existsb]. rewrite Z.eqb_refl. reflexivity.
+      * intros y Hy Hlt. cbn [existsb]. replace (y =? s)%Z with false by lia. cbn [orb].
+        apply existsb_eqb_false. intros Hin. specialize (Hall _ Hin). lia.
+    + apply Z.ltb_ge in E. rewrite <- (IH Hss' lo l Hsl Hlo).
+      * apply find_ext_in. intros x Hx. cbn [existsb]. specialize (Hlo _ Hx). replace (x =? s)%Z with false by lia. reflexivity.
+      * intros s' Hs' Hlt. apply Hcov; [right; exact Hs'|exact Hlt].
+Qed.
+
+Definition nxt (starts : list Z) (d : Z) : option Z := find (fun s => (d <? s)%Z) starts.
+
+Lemma day_postings_date d dp :
+  Forall (fun t => t_date t = d_date d) (d_txns d) -> In dp (day_postings d) -> fst dp = d_date d.
+Proof.
+  intros Hx Hin. unfold day_postings in Hin. apply in_concat in Hin. destruct Hin as (l & Hl & Hin).
+  apply in_map_iff in Hl. destruct Hl as (t & <- & Ht). apply in_map_iff in Hin. destruct Hin as (p0 & <- & _).
+  cbn [fst]. rewrite Forall_forall in Hx. apply Hx. exact Ht.
+Qed.
+
+Section NextClose.
+  Variable q : query.
+  Variable row : account.
+  Variable k : rkey.
+  Variable starts : list Z.
+  Hypothesis starts_sorted : StronglySorted Z.lt starts.
+
+  (* what one posting adds through the closing transaction of the next period start *)
+  Definition NX (dp : Z * posting) : Q :=
+    match nxt starts (fst dp) with
+    | Some cd => if closable_dp dp then G q row k cd (p_acc (snd dp)) (p_com (snd dp)) * dvalue (p_qty (snd dp)) else 0
+    | None => 0
+    end.
+
+  Lemma DD_nxt : forall ds lo,
+    StronglySorted Z.lt (dates ds) -> (forall x, In x (dates ds) -> (lo < x)%Z) ->
+    (forall s, In s starts -> (lo < s)%Z -> In s (dates ds)) -> days_dated ds ->
+    DD q row k starts ds == qsum NX (days_postings ds).
+  Proof.
+    induction ds as [|d ds IH]; intros lo Hs Hlo Hcov Hdt; cbn [DD]; [reflexivity|].
+    unfold dates in Hs, Hlo, Hcov. cbn [map] in Hs, Hlo, Hcov.
+    inversion Hs as [|? ? Hs' Hall]; subst. rewrite Forall_forall in Hall.
+    inversion Hdt as [|? ? Hd Hdt']; subst.
+    assert (Hcov' : forall s, In s starts -> (d_date d < s)%Z -> In s (dates ds)).
+    { intros s Hin Hlt. destruct (Hcov s Hin) as [E|E]; [specialize (Hlo _ (or_introl eq_refl)); lia|lia|exact E]. }
+    unfold days_postings. cbn [map concat]. rewrite qsum_app.
+    change (concat (map day_postings ds)) with (days_postings ds).
+    rewrite (IH (d_date d) Hs' Hall Hcov' Hdt').
+    apply Qplus_comp; [|reflexivity].
+    unfold firstclose. rewrite (firstclose_nxt starts starts_sorted (d_date d) (dates ds) Hs' Hall Hcov').
+    change (find (fun s => (d_date d <? s)%Z) starts) with (nxt starts (d_date d)).
+    destruct (nxt starts (d_date d)) as [cd|] eqn:En.
+    - unfold psum. apply qsum_ext. intros dp Hin. unfold NX. rewrite (day_postings_date d dp Hd Hin), En. reflexivity.
+    - symmetry. apply qsum_zero. intros dp Hin. unfold NX. rewrite (day_postings_date d dp Hd Hin), En. reflexivity.
+  Qed.
+End NextClose.
